@@ -13,7 +13,7 @@ ID = "C17"
 LEVEL = "exploration"
 TECHNIQUE = "exhaustive enumeration of the invalid-request classes (missing block size x argument tuples, all 256 opcode values, service-action integers, EXTENDED COPY key/code mutations, inconsistent TransportIDs) through constructors and through the facade over a recording target"
 RULE = ("block size 0 x {READ/WRITE(10,12,16), WRITE SAME(10,16), ATA PASS-THROUGH(12,16) with byte_block & t_type & t_length} x all argument "
-        "tuples with at most 1 deviation, through the constructor and through the facade on both transports, the baseline tuple also after every sequence of 1-2 other calls through the same facade (INQUIRY, TEST UNIT READY, READ CAPACITY 10/16 answered with a real block length, MODE SENSE, REPORT LUNS, block size set and reset, an earlier refused call); all 256 opcode values into "
+        "tuples with at most 1 deviation, through the constructor and through the facade on both transports, the baseline tuple also after every sequence of 1-2 other calls through the same facade (INQUIRY, TEST UNIT READY, READ CAPACITY 10/16 answered with a real block length, MODE SENSE, REPORT LUNS, block size set and reset, an earlier refused call, a second facade with a block size over the same device object); all 256 opcode values into "
         "init_cdb and three constructors; PERSISTENT RESERVE IN service actions -1..40 through the facade; EXTENDED COPY LID1/LID4 with each "
         "unknown key in CSCD and segment descriptors, unknown / valid-unimplemented / implemented type codes, LU ID TYPE 0..3, unknown device "
         "types, codes given by name in the wrong field (before and after a valid use of the same names); TransportIDs over protocols x format flag x session id; opcode refusal (init_cdb, marshall_cdb, constructor) racing with a second thread that builds a valid TEST UNIT READY / READ(10) / READ(16): all schedules with at most 2 preemptions at every source line of the library. Every case also states whether it must be accepted, so that refusing "
@@ -28,7 +28,7 @@ FACADE_OF = {"Read10": "read10", "Read12": "read12", "Read16": "read16", "Write1
              "ATAPassThrough16": "atapassthrough16"}
 
 
-PRE_CALLS = ["inquiry", "testunitready", "readcapacity10", "readcapacity16", "modesense6", "reportluns", "bs4096-0", "refused"]
+PRE_CALLS = ["inquiry", "testunitready", "readcapacity10", "readcapacity16", "modesense6", "reportluns", "bs4096-0", "refused", "other512", "otherset"]
 
 
 def partitions(tier):
@@ -156,6 +156,7 @@ def run_case(case, obs=None):
             rig = harness.Rig(via, 0x00)
             try:
                 s = rig.facade(blocksize=bs)
+                others = []
                 for pre in (case[6] if len(case) > 6 else []):
                     # earlier traffic through the same facade: whatever it taught the facade, a transfer without block size stays refused
                     try:
@@ -164,6 +165,15 @@ def run_case(case, obs=None):
                             s.blocksize = 0
                         elif pre == "refused":
                             s.read16(0, 1)
+                        elif pre == "other512":
+                            # a second facade over the SAME device object, given a block size: its setting is its own
+                            from pyscsi.pyscsi.scsi import SCSI
+                            others.append(SCSI(rig.dev, 512))
+                        elif pre == "otherset":
+                            from pyscsi.pyscsi.scsi import SCSI
+                            o = SCSI(rig.dev)
+                            o.blocksize = 4096
+                            others.append(o)
                         elif pre == "readcapacity16":
                             s.readcapacity16()
                         else:
